@@ -151,3 +151,13 @@ Example C08_cte_escape_heavy_example :
   cte_string (lrep [97; 98; 99; 100; 101; 102; 103; 104; 92; 110] 1000 ++ [34])
   = Some {| c_len := 9000; c_cap := 15550; c_al := 45982; c_work := 39432 |}.
 Proof. vm_compute. reflexivity. Qed.
+
+(* since /repo 9d7e9c8 a code point escape naming a surrogate or a value beyond U+10FFFF
+   ends the decode in an error (model: None) instead of being appended as U+FFFD;
+   the same body with a valid scalar value is accepted *)
+Example C08_cte_invalid_codepoint_escapes_rejected :
+  cte_string [97; 92; 91; 100; 56; 48; 48; 93; 34] = None /\              (* a\[d800] and the closing quote *)
+  cte_string [97; 92; 91; 49; 49; 48; 48; 48; 48; 93; 34] = None /\      (* a\[110000] *)
+  cte_string [97; 92; 91; 49; 48; 102; 102; 102; 102; 93; 34]             (* a\[10ffff] *)
+  = Some {| c_len := 5; c_cap := 5; c_al := 6; c_work := 6 |}.
+Proof. vm_compute. repeat split; reflexivity. Qed.
